@@ -4,7 +4,8 @@
 # of the machinery. /repo itself is never touched.
 # usage: benign_matrix.sh [tier] [names...]      (env PROPS="C01 C02" restricts the checks)
 TIER="${1:-quick}"; shift
-cd /verif
+H="${VERIF_HOME:-/verif}"   # a snapshot copy of /verif may be used so that the harness can be edited meanwhile
+cd "$H"
 NAMES="$@"; [ -z "$NAMES" ] && NAMES=$(ls benign | grep -v MATRIX)
 PROPS="${PROPS:-C01 C02 C03 C04 C05 C06 C07 C08 C09 C10 C11 C12 C13 C14 C15 C16 C17 C18 C19 C20}"
 WT=/tmp/wt/bmatrix
@@ -12,7 +13,7 @@ mkdir -p /tmp/wt/blog
 for n in $NAMES; do
   git -C /repo worktree remove --force $WT >/dev/null 2>&1
   git -C /repo worktree add --detach $WT HEAD >/dev/null 2>&1
-  if ! git -C $WT apply /verif/benign/$n/patch.diff 2>/dev/null; then echo "$n PATCH-DOES-NOT-APPLY"; continue; fi
+  if ! git -C $WT apply $H/benign/$n/patch.diff 2>/dev/null; then echo "$n PATCH-DOES-NOT-APPLY"; continue; fi
   row="$n"
   for p in $PROPS; do
     VERIF_EVIDENCE_DIR=/tmp/wt/bmatrix-evidence VERIF_REPO=$WT ./verif check $p --tier $TIER > /tmp/wt/blog/$n.$p.log 2>&1; rc=$?
